@@ -56,12 +56,39 @@ func partsOf(v Value) ([]StrPart, bool) {
 	case s.Atom != nil || s.Bytes != nil:
 		return nil, false
 	case s.Fmt != nil:
-		if s.Fmt.Format == "%d" && len(s.Fmt.Args) == 1 {
-			if t, ok := s.Fmt.Args[0].(*Term); ok && t.Sort == SInt {
-				return []StrPart{{Num: t}}, true
+		// a format made of literal text and %d verbs whose arguments are integer terms
+		f := s.Fmt.Format
+		var ps []StrPart
+		k := 0
+		for {
+			i := strings.IndexByte(f, '%')
+			if i < 0 {
+				break
 			}
+			if i+1 >= len(f) || f[i+1] != 'd' || k >= len(s.Fmt.Args) {
+				return nil, false
+			}
+			a := s.Fmt.Args[k]
+			if iv, ok := a.(IfaceV); ok {
+				a = iv.V
+			}
+			t, ok := a.(*Term)
+			if !ok || t.Sort != SInt {
+				return nil, false
+			}
+			ps = append(ps, StrPart{Lit: f[:i]}, StrPart{Num: t})
+			k++
+			f = f[i+2:]
 		}
-		return nil, false
+		if k != len(s.Fmt.Args) || strings.HasPrefix(s.Fmt.Format, "enc:") {
+			return nil, false
+		}
+		ps = append(ps, StrPart{Lit: f})
+		n := normParts(ps)
+		if n.Parts != nil {
+			return n.Parts, true
+		}
+		return []StrPart{{Lit: n.S}}, true
 	}
 	if s.S == "" {
 		return []StrPart{}, true
